@@ -117,6 +117,14 @@ class C01(Prop):
     trusted_base = SCOPE_TRUST
     assumptions = ["lua51 standard library roots as the 'supplied by the library' oracle (lookup itself is C06)"]
 
+    def extra(self, ctx):
+        # how many generated programs lie in the fragment covered by theorem C01_never_reports_locals
+        res = ctx.get("results", {})
+        inside = sum(1 for (_c, k) in res.values() if k & (1 << 40))
+        ctx["cov"]["theorem_fragment"] = {"cases_inside_fragment": inside, "cases_evaluated": len(ctx.get("descs", {})),
+                                          "fragment": "no function expressions; declared names are not `...` (Scope/Fragment.v ok_block)"}
+        return []
+
 
 class C02(C01):
     id = "C02"
